@@ -513,4 +513,109 @@ theorem legScaleArg_spec (adapt : Bool) (s : ℚ) :
     legScaleArg adapt (some s) = some s ∧ legScaleArg false none = none ∧ legScaleArg true none = some (1 / 10) := by
   simp [legScaleArg]
 
+/-! ## Part 4 — second pass: CWMH on recorded values, re-initialisation / re-targeting, `step` / `step_tune` -/
+
+/-- **CWMH (both interfaces): the recorded-leaf sweep the driver folds over IS the sweep on the target
+    function** whenever, at every component `j`, the recorded value is the target's value at the point the
+    loop queries there (`AgreeOn`: `x_star` with coordinate `j` replaced, along the run) — accept bits,
+    next point, cache and the list of query points all coincide.  Completes `stepLeaf_eq_stepFn`. -/
+theorem stepLeaf_eq_stepFn_cwmh (k : Kernel) (hk : k = .expCWMH ∨ k = .legCWMH) (logd : Vec → XVal)
+    (gradf : Vec → Vec) (b : Bool) (st : St) (inp : Inp)
+    (h : AgreeOn k (fun j _ => inp.ts.getD j nan) (fun _ => logd) ((cwPropose st inp.z).map (coerce b)) inp.ells
+          (List.range st.x.length) (cwLoop0 st)) :
+    stepLeaf k b st inp = stepFn k logd gradf b st inp := by
+  rcases hk with rfl | rfl <;> simp only [stepLeaf, stepFn] <;> rw [cwStep_congr _ _ _ st inp.z inp.ells b h]
+
+/-- the hypothesis is satisfiable: a two-component sweep with the values of `-(x₀² + x₁²)` recorded at
+    the two query points `(1, 0)` and `(1, 2)` (first component accepted) -/
+example : AgreeOn .expCWMH (fun j _ => [fin (-1), fin (-5)].getD j nan) (fun _ x => fin (-(sqNorm x)))
+    ((cwPropose ⟨[0, 0], fin 0, [], [1]⟩ [1, 2]).map (coerce false)) [fin (-2), fin (-1/2)]
+    (List.range 2) (cwLoop0 ⟨[0, 0], fin 0, [], [1]⟩) := by
+  have hr : List.range 2 = [0, 1] := by decide
+  rw [hr]
+  refine ⟨by decide +kernel, by decide +kernel, trivial⟩
+
+/-- **Every invariant of the transition is an invariant of every history, re-initialisation and
+    re-targeting included.**  `P t st`: property of the transition state relative to target `t`, preserved by
+    `t`'s transition, independent of the scale, and established by `initialize()` (which evaluates the CURRENT
+    target at the CURRENT `initial_point`).  Then `P (current target) (current state)` holds after any
+    interleaving of `sample`, `warmup`, `scale = …`, reload, `reinitialize()` (after `initial_point` was
+    re-assigned or not) and `target = …; reinitialize()`. -/
+theorem sessionT_invariant {τ ι : Type} (tn : Tuner) (wk : Window) (dim width : Nat)
+    (step : τ → St → ι → St × List Bool) (evalInit : Nat → τ → Vec → XVal × Vec) (P : τ → St → Prop)
+    (hstep : ∀ t st inp, P t st → P t (step t st inp).1)
+    (hscale : ∀ t st v, P t st → P t { st with scale := v })
+    (hinit : ∀ n t x0 sc, P t { x := x0, logd := (evalInit n t x0).1, grad := (evalInit n t x0).2, scale := sc })
+    (fresh : Smp) (S : SmpT τ) (phases : List (PhaseT τ ι)) (h : P S.tgt S.s.st) :
+    P (runSessionT tn wk dim width step evalInit fresh S phases).tgt
+      (runSessionT tn wk dim width step evalInit fresh S phases).s.st := by
+  unfold runSessionT
+  induction phases generalizing S with
+  | nil => simpa using h
+  | cons ph rest ih =>
+    simp only [List.foldl_cons]
+    apply ih
+    cases ph with
+    | base p => exact runPhase_invariant tn wk dim (step S.tgt) (P S.tgt) (hstep S.tgt) (hscale S.tgt) fresh S.s p h
+    | reinit x0 sc lam => exact hinit _ _ _ _
+    | retarget t x0 sc lam => exact hinit _ _ _ _
+
+/-- **Cache coherence for all histories, re-initialisation and re-targeting included** (all four experimental
+    samplers): after `sampler.target = B; reinitialize()` the cached log-density / gradient are B's at the
+    current point, after `initial_point = …; reinitialize()` they are the current target's at the new point,
+    and they stay so through any later warm-up / sampling / reload — for any family of targets `logd t`,
+    `gradf t`. -/
+theorem sessionT_cache_coherent {τ : Type} (k : Kernel) (logd : τ → Vec → XVal) (gradf : τ → Vec → Vec)
+    (intDtype : Bool) (dim width : Nat) (fresh : Smp) (S : SmpT τ) (phases : List (PhaseT τ Inp))
+    (h : Coherent k (logd S.tgt) (gradf S.tgt) S.s.st) :
+    let R := runSessionT k.tuner k.window dim width (fun t => stepFn k (logd t) (gradf t) intDtype)
+      (fun _ t x => (logd t x, gradf t x)) fresh S phases
+    Coherent k (logd R.tgt) (gradf R.tgt) R.s.st :=
+  sessionT_invariant k.tuner k.window dim width (fun t => stepFn k (logd t) (gradf t) intDtype)
+    (fun _ t x => (logd t x, gradf t x)) (fun t => Coherent k (logd t) (gradf t))
+    (fun t st inp hst => stepFn_coherent k (logd t) (gradf t) intDtype st inp hst)
+    (fun t st v hst => coherent_rescale k (logd t) (gradf t) st v hst)
+    (fun _ _ _ _ => ⟨rfl, fun _ => rfl⟩) fresh S phases h
+
+/-- A history without re-initialisation is a `runSession` history (the first-pass theorems are the special case). -/
+theorem runSessionT_base {τ ι : Type} (tn : Tuner) (wk : Window) (dim width : Nat)
+    (step : τ → St → ι → St × List Bool) (evalInit : Nat → τ → Vec → XVal × Vec) (fresh : Smp) (S : SmpT τ)
+    (phases : List (Phase ι)) :
+    (runSessionT tn wk dim width step evalInit fresh S (phases.map PhaseT.base)).s
+        = runSession tn wk dim (step S.tgt) fresh S.s phases ∧
+    (runSessionT tn wk dim width step evalInit fresh S (phases.map PhaseT.base)).tgt = S.tgt := by
+  unfold runSessionT runSession
+  induction phases generalizing S with
+  | nil => exact ⟨rfl, rfl⟩
+  | cons p rest ih =>
+    simp only [List.map_cons, List.foldl_cons]
+    exact ih { S with s := runPhase tn wk dim (step S.tgt) fresh S.s p }
+
+/-- `reinitialize()` discards the histories and restarts the tuning variable: `_acc = [ones]`, `_samples = []`,
+    `_scale_temp`/`lambd` = `initial_scale`, point = `initial_point`, scale = `initial_scale`. -/
+theorem smpReinit_spec {τ : Type} (width : Nat) (evalInit : Nat → τ → Vec → XVal × Vec) (S : SmpT τ) (t : τ)
+    (x0 scale0 : Vec) (lam0 : List XVal) :
+    let R := smpReinit width evalInit S t x0 scale0 lam0
+    R.tgt = t ∧ R.s.st.x = x0 ∧ R.s.st.scale = scale0 ∧ R.s.logLam = lam0 ∧
+      R.s.acc = [List.replicate width true] ∧ R.s.samples = [] ∧ R.s.st.logd = (evalInit S.nInit t x0).1 := by
+  simp [smpReinit, smpInit]
+
+/-- **Legacy `step(x)` is one transition from `x` with a freshly evaluated cache**: `self.x0 = x;
+    sample(2).samples[:, -1]` returns the point of `step` applied to (`x`, target values AT `x`) — never a
+    value cached for an earlier point. -/
+theorem legStep_eq {ι : Type} (width : Nat) (step : St → ι → St × List Bool) (st0 : St) (inp : ι) :
+    legStep width step st0 inp = some (step st0 inp).1.x := by
+  unfold legStep
+  rw [(legSample_eq width step st0 2 0 [inp] (by omega) (by simp)).1]
+  simp [chainOf]
+
+/-- **Legacy `step_tune(x)`** = `step(x)` (the legacy `tune()` of the four samplers is `pass`); with extra
+    arguments it is refused (`tune()` takes none). -/
+theorem legStepTune_spec {ι : Type} (width : Nat) (step : St → ι → St × List Bool) (st0 : St) (inp : ι) (n : Nat) :
+    legStepTune width step st0 inp 0 = some (step st0 inp).1.x ∧ legStepTune width step st0 inp (n + 1) = none := by
+  simp [legStepTune, legStep_eq]
+
+example : legStepTune 1 (stepLeaf .legMH false) ⟨[0], fin 0, [], [1/2]⟩ ⟨[1], [fin (-1)], [fin (-1/2)], [], 0⟩ 0
+    = some [1/2] := by decide +kernel
+
 end CuqiVerif.C02
